@@ -324,6 +324,8 @@ def l2_blocks(c1: int, level: int, ordered: bool, nkids: int, align: int, header
         tok = mk(block_token.Table, column_align=[al, al], children=[row for _ in range(nkids)])
         if header:
             tok.header = row
+        else:
+            tok._absent_ = ('header',)       # Table.__init__ sets .header only when there is a delimiter row
     return balanced(r.render(tok))
 
 
